@@ -613,10 +613,10 @@ impl CodeGen {
                         }
                     } else if let Some(reg0) = Reg::tmp(tmp0) {
                         self.emit_mov_r64_i64(reg0, imm.into_i64());
-                        self.emit_mov_r64_rm64(reg0, self.tmp_param(tmp1));
+                        self.emit_add_r64_rm64(reg0, self.tmp_param(tmp1));
                     } else {
                         self.emit_mov_r64_i64(Reg::scr0(), imm.into_i64());
-                        self.emit_mov_r64_rm64(Reg::scr0(), self.tmp_param(tmp1));
+                        self.emit_add_r64_rm64(Reg::scr0(), self.tmp_param(tmp1));
                         self.emit_mov_rm64_r64(self.tmp_param(tmp0), Reg::scr0());
                     }
                 }
